@@ -20,6 +20,7 @@ pub fn exec_case(case: &Value) -> Value {
         "parse_cond" | "parse_match" => props::parse::exec(case),
         "load_text" => props::c15::exec(case),
         "history" => props::c14::exec(case),
+        "yaml_load" => props::c20::exec(case),
         "conv" | "widen" | "roundtrip" | "hexparse" | "textconv" | "boolip" => props::c19::exec(case),
         "tpl_replace" | "tpl_load" => props::c17::exec(case),
         _ => serde_json::json!({ "error": format!("unknown op {op}") }),
@@ -39,6 +40,7 @@ pub fn gen_cases(prop: &str, tier: &str, seed: u64, out: &mut dyn FnMut(Value)) 
         "C17" => props::c17::gen(tier, seed, out),
         "C14" => props::c14::gen(tier, seed, out),
         "C19" => props::c19::gen(tier, seed, out),
+        "C20" => props::c20::gen(tier, seed, out),
         "C06" => props::engine_props::gen_c06(tier, seed, out),
         "C07" => props::engine_props::gen_c07(tier, seed, out),
         "C09" => props::engine_props::gen_c09(tier, seed, out),
